@@ -331,7 +331,9 @@ class KnownMultiplierStringType(Type):
                                                         self.__class__.__name__,
                                                         self.TAG)
         self.number_of_bytes = None
+        self.set_size_range(minimum, maximum, has_extension_marker)
 
+    def set_size_range(self, minimum, maximum, has_extension_marker):
         if minimum is not None or maximum is not None:
             if not has_extension_marker:
                 if minimum == maximum:
@@ -740,7 +742,9 @@ class BitString(Type):
                                         Tag.BIT_STRING)
         self.number_of_bits = None
         self.named_bits = named_bits
+        self.set_size_range(minimum, maximum, has_extension_marker)
 
+    def set_size_range(self, minimum, maximum, has_extension_marker):
         if minimum is not None or maximum is not None:
             if not has_extension_marker:
                 if minimum == maximum:
